@@ -26,7 +26,8 @@ From CPL Require Export GenProps.GenFunsEquivC11 GenProps.GenFunsEquivC14 GenPro
                         GenProps.GenFunsEquivC13 GenProps.GenFunsEquivC06 GenProps.GenFunsEquivC12
                         GenProps.GenFunsEquivC07 GenProps.GenFunsEquivC18 GenProps.GenFunsEquivC20
                         GenProps.GenFunsEquivC08 GenProps.GenFunsEquivC19 GenProps.GenFunsEquivC16
-                        GenProps.GenFunsEquivC01 GenProps.GenFunsEquivC02 GenProps.GenFunsEquivC10 GenProps.GenFunsEquivC03.
+                        GenProps.GenFunsEquivC01 GenProps.GenFunsEquivC02 GenProps.GenFunsEquivC10 GenProps.GenFunsEquivC03
+                        GenProps.GenFunsEquivC09 GenProps.GenFunsEquivC17.
 
 Print Assumptions src_game_of_life_rule_agrees.
 Print Assumptions src_sandpile_is_in_boundary_agrees.
